@@ -545,11 +545,12 @@ pub struct ProxyOpts {
     pub batch: BatchStrategy,
     pub nodes_version: ClusterNodesVersion,
     pub low_flush_ns: u64,
+    pub max_redirections: usize,
 }
 
 impl Default for ProxyOpts {
     fn default() -> Self {
-        ProxyOpts { active_redirection: false, backend_conn_num: 1, batch: BatchStrategy::Disabled, nodes_version: ClusterNodesVersion::V2, low_flush_ns: 0 }
+        ProxyOpts { active_redirection: false, backend_conn_num: 1, batch: BatchStrategy::Disabled, nodes_version: ClusterNodesVersion::V2, low_flush_ns: 0, max_redirections: 0 }
     }
 }
 
@@ -565,7 +566,7 @@ fn proxy_config(address: &str, o: &ProxyOpts) -> ServerProxyConfig {
         thread_number: NonZeroUsize::new(1).unwrap(),
         backend_conn_num: NonZeroUsize::new(o.backend_conn_num.max(1)).unwrap(),
         active_redirection: o.active_redirection,
-        max_redirections: None,
+        max_redirections: NonZeroUsize::new(o.max_redirections),
         default_redirection_address: None,
         backend_batch_strategy: o.batch,
         backend_flush_size: NonZeroUsize::new(1024).unwrap(),
